@@ -23,8 +23,8 @@ PROPS['C03'] = dict(level='model_checking',
   ])
 
 PROPS['C15'] = dict(level='model_checking',
-  bounds='v1: 2 lockers + try_lock prober (T=3) and 3 lockers; v2: see harness list; K per harness',
-  outside='more than 3 contending parties, seq_cst fence strength (SC model)',
+  bounds='v1: 2 lockers + try_lock prober (T=3) and 3 lockers; v2: 27 event plans; atomic_intrusive_list (v2 waiter queue): 2 threads, one operation each (two pops for one pair), 0-3 queued nodes, K=36 steps (bound query proves sufficiency), link spin loops modelled as blocking waits (hook vf_spin_wait2)',
+  outside='more than 3 contending parties, more than one list operation per thread, seq_cst fence strength (SC model), compare_exchange_weak spurious failure',
   harnesses=[
     H('v1_two_lockers', 'C15_mutex_v1.cpp', ['h_lock0', 'h_lock1'], 24, final='h_final2', desc='two async_lock contending'),
     H('v1_locker_vs_try', 'C15_mutex_v1.cpp', ['h_lock0', 'h_try'], 22, final='h_final1', desc='async_lock vs try_lock/unlock'),
@@ -34,8 +34,8 @@ PROPS['C15'] = dict(level='model_checking',
   ])
 
 PROPS['C16'] = dict(level='model_checking',
-  bounds='manual-reset event v1: 2 waiters + setter (+ late waiter); K per harness',
-  outside='more than 3 parties; weak cmpxchg spurious failure (modelled as strong); weak memory',
+  bounds='manual-reset event v1: 2 waiters + setter (+ late waiter); latch-mode intrusive list (v2 event waiter list): 2 threads, one operation each, 0-2 queued waiters, K=40-56; async_pass sequential; K per harness',
+  outside='more than 3 parties; the v2 event layers above its waiter list; weak cmpxchg spurious failure (modelled as strong); weak memory',
   harnesses=[
   ] + [SEQ('pass_mode%d' % c, 'C16_pass.cpp', 'h_pass', std='c++20', exc=True, opts=dict(params=[c], max_rec=6), desc='nothrow_async_pass<int>: parked accept + try_call, stop %s; payload symbolic' % ['never', 'inside the caller callback', 'before the call', 'after the call'][c]) for c in range(4)] + [
     H('ev1_two_waiters_set', 'C16_event_v1.cpp', ['h_wait0', 'h_wait1', 'h_set'], 16, final='h_final2', desc='two async_wait racing one set()'),
@@ -99,8 +99,8 @@ PROPS['C17'] = dict(level='model_checking',
    [SEQ('bulk_policy_%d' % c, 'C17_bulk.cpp', 'h_bulk_policy', opts=dict(params=[c]), desc='bulk_transform policy meet, own/downstream combination %d' % c) for c in range(10)])
 
 PROPS['C07'] = dict(level='model_checking',
-  bounds='time_point arithmetic: |seconds| < 2^32, |nanoseconds| < 2^40, |duration| < 2^44 ticks; timer queue: see harness list',
-  outside='operands near INT64 limits (overflow is undefined there); io_epoll/io_uring kernel timers',
+  bounds='timed_single_thread_context: 3 timers (due times from {0,16,32,48} quick, arbitrary 8-bit thorough), T=2 start/expiry/stop race K=40; io_epoll_context over the kernel model of C07_epoll.cpp: 1-2 timers, remote actions injected at system call k<=9 of the I/O thread, clock advancing by 0/30/60 per read; time_point normalize: |seconds| < 2^32, |nanoseconds| < 2^40 (thorough)',
+  outside='time_point add/sub/order (no verdict within 30 min: deep tier); io_uring timers; interleavings inside one remote action on the epoll context; more than 3 timers',
   harnesses=[SEQ('clock_' + n, 'C07_clock.cpp', 'h_' + n, timeout=1800, tier=('thorough' if n == 'normalize' else 'deep'), desc='monotonic_clock::time_point ' + n) for n in ('normalize', 'add_sub', 'order')] +
    [H('timerq_n%d_c%d' % (n, c), 'C07_timerq.cpp', ['h_worker', 'h_main'], 44, tier='deep', timeout=2400, opts=dict(params=[n, c], thread_of_body={'0': 0}), desc='timed_single_thread_context: %d timers with symbolic due times%s' % (n, ', last one cancelled' if c else '')) for n in (2,) for c in (0, 1)] +
    [H('timer_race_due%d_stop%d' % (d, c), 'C07_timer_race.cpp', ['h_worker', 'h_main'], 40, opts=dict(params=[d, c], thread_of_body={'0': 0}), desc='timed_single_thread_context: start() of a timer due at %d racing the timer thread%s (minimal outer stop source; receiver frees the op)' % (d, ', then a stop request' if c else '')) for d in (0,) for c in (0, 1)] +
@@ -170,8 +170,8 @@ PROPS['C10'] = dict(level='model_checking',
             [SEQ('task_stop_o%d_p%d' % (o, p), 'C10_task.cpp', 'h_task_stop', std='c++20', exc=True, extra=['$REPO/source/async_stack.cpp'], opts=dict(params=[o, p], max_rec=8, max_visits=200), desc='stop %s on the awaiting receiver is visible to the awaited leaf; leaf outcome %d' % ('requested' if p else 'not requested', o)) for o in (0, 2) for p in (0, 1)])
 
 PROPS['C14'] = dict(level='model_checking',
-  bounds='claimed part only: safe_file_descriptor (all 8^4 operation sequences: first enumerated, three symbolic) and mmap_region (all 4^3 sequences, symbolic) with counting ::close/::munmap stubs',
-  outside='everything that has the kernel as the other party: epoll/io_uring submission and completion, byte-exact transfers, short/failed syscalls, descriptor reuse after cancellation, cross-thread inbox wake-ups (not encodable without a kernel model; see DESIGN 7.6)',
+  bounds='safe_file_descriptor (all 8^4 operation sequences: first enumerated, three symbolic) and mmap_region (all 4^3 sequences) with counting ::close/::munmap stubs; io_epoll_context over the stated kernel model (epoll table, eventfd counter, timerfd): two schedule() operations from other threads injected at system calls k1,k2 in 0..6 of the I/O thread, run(stop_token) until stop',
+  outside='async read/write senders, io_uring_context (rings shared with the kernel: no model), short/failed system calls, descriptor reuse after a cancelled operation, interleavings inside one remote action (see DESIGN 7.6)',
   harnesses=[SEQ('fd_first_%d' % c, 'C14_fd.cpp', 'h_fd', opts=dict(params=[c], max_visits=100), desc='safe_file_descriptor: first operation %d, then three symbolic operations out of 8' % c) for c in range(8)] +
             [SEQ('mmap_seq', 'C14_fd.cpp', 'h_mmap', opts=dict(params=[0], max_visits=100), desc='mmap_region: three symbolic operations out of 4')])
 PROPS['C11']['harnesses'] += [SEQ('via_throw_k%d' % k, 'C11_viathrow.cpp', 'h_via_throw', exc=True, opts=dict(params=[k]), desc='via over a source completing on a foreign context with a value whose copy #%d throws' % k) for k in (0, 1, 2, 99)]
@@ -199,9 +199,21 @@ EPOLL = [EP('timer', [1, 0, 0, 0, 0, 0, 0], 'one timer started from another thre
   [EP('two_timers_b%d_cancel_at%d' % (db, k), [1, 0, 2, 0, 3, k, db], 'timers A (due 50, stoppable) and B (due %d) started remotely; remote stop request for A at system call #%d' % (db, k)) for db in (40, 50, 60) for k in (2, 3, 4, 5, 6, 7, 8, 99)] + \
   [EP('two_timers_late_b%d_at%d' % (db, k), [1, 0, 2, k, 0, 0, db], 'timer A started, timer B (due %d) started remotely at system call #%d' % (db, k)) for db in (40, 60) for k in (1, 3, 5)]
 EPOLL14 = [EP('remote_sched_at%d_%d' % (k1, k2), [4, k1, 6, k2, 0, 0, 0], 'two schedule() operations started from other threads at system calls #%d and #%d (idle / wake-up protocol)' % (k1, k2)) for k1 in (0, 1, 2, 3) for k2 in (k1, k1 + 1, k1 + 2, k1 + 3)]
+EPOLL14 += [EP('read_then_write_at%d' % k, [7, 0, 8, k, 0, 0, 0, 0], 'async read on an empty pipe started remotely; async write of 2 symbolic bytes started at system call #%d' % k) for k in (0, 1, 2, 3, 4, 5)] + \
+  [EP('read_cancel_at%d' % k, [7, 0, 9, k, 12, k + 2, 0, 0], 'async read parked on an empty pipe; remote stop request at system call #%d; a byte arrives later' % k) for k in (1, 2, 3, 4, 5)] + \
+  [EP('write_cancel_at%d' % k, [8, 0, 10, k, 11, k + 2, 0, 4], 'async write parked on a full pipe; remote stop request at system call #%d; the pipe is drained later' % k) for k in (1, 2, 3, 4, 5)] + \
+  [EP('read_partial_pre%d' % n, [7, 0, 0, 0, 0, 0, 0, n], 'async read with %d byte(s) already in the pipe' % n) for n in (1, 2, 3)] + \
+  [EP('write_partial_pre%d' % n, [8, 0, 0, 0, 0, 0, 0, n], 'async write of 2 bytes into a pipe with %d of 4 bytes used' % n) for n in (0, 2, 3)]
 PROPS['C14']['harnesses'] += EPOLL14
 PROPS['C07']['harnesses'] += EPOLL
+PROPS['C10']['harnesses'] += [H('task_stop_race_o%d' % o, 'C10_race.cpp', ['h_complete', 'h_stop'], 70, std='c++20', exc=True, extra=['$REPO/source/async_stack.cpp'], tier='deep', timeout=7200,
+   opts=dict(params=[o], max_rec=8, max_visits=60, prune_budget=5000), desc='task<int> with a stoppable receiver: awaited leaf completes with %s on one thread while a stop request arrives on another (stop-request thunk join)' % ['value', 'error', 'done'][o]) for o in (0, 2)]
 # cross-registration: harnesses whose assertions also decide clauses of other properties
 PROPS['C04']['harnesses'] += [h for h in PROPS['C01']['harnesses'] if h['name'] in ('wa_race_min', 'sw_race_min')]
 PROPS['C05']['harnesses'] += [h for h in PROPS['C04']['harnesses'] if h['name'] == 'wa_inline_cancel'] + \
                              [h for h in PROPS['C02']['harnesses'] if h['name'].startswith(('fault_finally_k', 'fault_finally_done_k'))]
+# (found with the seeded changes: these harnesses also assert clauses of the sibling property, so they are run under it too)
+PROPS['C01']['harnesses'] += [h for h in PROPS['C02']['harnesses'] if h['name'].startswith(('fault_finally_k', 'fault_finally_done_k'))]      # "did not complete exactly once" when a value copy throws
+PROPS['C04']['harnesses'] += [h for h in PROPS['C13']['harnesses'] if h['name'].startswith('take_until_abandon')]                               # stop must reach the pending trigger
+PROPS['C06']['harnesses'] += [h for h in PROPS['C07']['harnesses'] if h['name'].startswith('timerq_seq_n3') and h['name'].endswith('_enum')]  # no queued item is lost (timed context)
+PROPS['C12']['harnesses'] += [h for h in PROPS['C02']['harnesses'] if h['name'].startswith('fault_allocate')]                                 # memory obtained through get_allocator(receiver) goes back to it
